@@ -227,6 +227,21 @@ func randSeparator(r *rand.Rand, needSpace bool) string {
 }
 
 func commentBody(r *rand.Rand, block bool) string {
+	if block {
+		// degenerate block comments: empty, stars only, a slash right after the opening
+		switch r.Intn(12) {
+		case 0:
+			return ""
+		case 1:
+			return "*"
+		case 2:
+			return "/ x "
+		case 3:
+			return "* x *"
+		}
+	} else if r.Intn(12) == 0 {
+		return ""
+	}
 	var sb strings.Builder
 	sb.WriteString(" ") // never start with "line " directly after //
 	sb.WriteString("c")
